@@ -164,3 +164,106 @@ def who_calls(prog, *names):
 
 def short(fn):
     return fn.pq.replace("Oomd::", "")
+
+
+# ---------------------------------------------------------------- loop rules
+def back_sources(loop):
+    return [s for s, _ in loop["back_edges"]]
+
+
+def per_iter_once(ctx, fn, loop, nodes, inst, what, rule="per-iteration exactly-once"):
+    """Every iteration executes exactly one of `nodes` (on every path to the back edge)."""
+    if not nodes:
+        ctx.violation(inst, rule, fn.loc(), "no %s inside the loop" % what)
+        return False
+    ev = {n: [("set", "X")] for n in nodes}
+    fl = iter_flow(ctx, fn, loop, ev)
+    ok = True
+    for b in back_sources(loop):
+        parts = fl.OUT.get(b)
+        if parts is None:
+            continue
+        if not all("X" in st.must for st in parts.values()):
+            ok = False
+            ctx.violation(inst, rule, fn.loc(nodes[0]),
+                          "an iteration can complete without executing %s" % what)
+            break
+    for n in nodes:
+        if fl.may(n, "X"):
+            ok = False
+            ctx.violation(inst + ":twice", rule, fn.loc(n), "%s can execute twice in one iteration" % what)
+    if ok:
+        ctx.ok(inst, rule, fn.loc(nodes[0]), "every iteration executes %s exactly once" % what)
+    return ok
+
+
+def no_early_exit(ctx, fn, loop, inst, what):
+    ee = early_exits(fn, loop)
+    # an exit edge that only leads to an abort (OCHECK) is not a normal exit
+    real = []
+    for b, s in ee:
+        if fn.blocks[s].get("noreturn"):
+            continue
+        real.append((b, s))
+    if real:
+        t = fn.blocks[real[0][0]].get("term", {})
+        ctx.violation(inst, "loop_has_no_early_exit", "%s:%s" % (fn.file, t.get("line", fn.line)),
+                      "the loop over %s can be left early (break/return inside the body)" % what)
+        return False
+    ctx.ok(inst, "loop_has_no_early_exit", fn.loc(loop["stmt"]) if loop["stmt"] is not None else fn.loc(),
+           "the loop over %s has no early exit" % what)
+    return True
+
+
+def forward_iteration(fn, loop):
+    s = loop["stmt"]
+    if s is None:
+        return False
+    n = fn.nodes[s]
+    if n["k"] == "rangefor":
+        return True
+    if n["k"] == "for":
+        t = " ".join(fn.text(n[k]) for k in ("init", "c", "inc") if k in n)
+        return ".begin()" in t and "rbegin" not in t and "--" not in t
+    return False
+
+
+def case_blocks(fn, switch_stmt=None):
+    """{case name: block id} (and 'default') for case labels in fn."""
+    out = {}
+    for b in fn.cfg:
+        l = b.get("label")
+        if not l:
+            continue
+        if l["k"] == "case":
+            out[str(l.get("name", l.get("val")))] = b["id"]
+        elif l["k"] == "default":
+            out["default"] = b["id"]
+    return out
+
+
+def local_writes(fn, name):
+    """Assignments (not the declaration) to local `name`."""
+    out = []
+    for i, n in enumerate(fn.nodes):
+        tgt = None
+        if n["k"] == "bin" and n["op"] in ("=", "+=", "-=", "|=", "&="):
+            tgt = n["l"]
+        elif n["k"] == "un" and n["op"] in ("++", "--"):
+            tgt = n["sub"]
+        elif n["k"] == "call" and n.get("op") in ("=", "+=", "-=") and "recv" in n:
+            tgt = n["recv"]
+        if tgt is None:
+            continue
+        t = fn.nodes[fn.strip(tgt)]
+        if t["k"] == "ref" and t["name"] == name and t["dk"] in ("local", "param"):
+            out.append(i)
+    return out
+
+
+def local_init(fn, name):
+    for i in fn.all("decl"):
+        for v in fn.nodes[i].get("vars", []):
+            if v["name"] == name:
+                return v.get("init", -1), v
+    return -1, None
